@@ -1,7 +1,8 @@
-(* C40 proofs: the CSV writer round-trips through the RFC 4180 parser for every table outside
-   the classes known_cr / known_header; the JSON string escaper round-trips through the
-   RFC 8259 string lexer for every string without control characters, and fails on every
-   other string; minimal witnesses of each failure. *)
+(* C40 proofs (writer after fixes efda2f4 / 8d4c59c): the CSV writer round-trips through the
+   RFC 4180 parser for EVERY well-formed table; the JSON string escaper round-trips through the
+   RFC 8259 string lexer for EVERY byte string; the JSON document parses to the expected objects
+   for every well-formed, typed table.  The writer as it was before the fixes is kept
+   (`*_before_fix`) with the minimal witnesses of its failures as regression theorems. *)
 From QV Require Import Base.Util C40.Model.
 Local Open Scope Z_scope.
 
@@ -83,31 +84,26 @@ Definition field_good (e sh : list Z) : Prop :=
 Lemma plain_field_good v : csv_plain v = true -> field_good v v.
 Proof. intros H d rest Hd. now apply go_FS_plain. Qed.
 
-Lemma known_cr_plain v : known_cr_text v = false -> csv_needs_quote v = false -> csv_plain v = true.
-Proof.
-  unfold known_cr_text, csv_needs_quote, csv_plain. intros H1 H2. rewrite H2 in H1.
-  destruct (has 13 v); [discriminate|].
-  apply orb_false_iff in H2 as [H2 H3]. apply orb_false_iff in H2 as [H2 H4].
-  now rewrite H2, H3, H4.
-Qed.
+Lemma plain_not_quoted v : csv_needs_quote v = false -> csv_plain v = true.
+Proof. unfold csv_plain, csv_needs_quote. now intros ->. Qed.
 
-Lemma text_field_good v : known_cr_text v = false ->
-  field_good (if csv_needs_quote v then 34 :: csv_dq v ++ [34] else v) v.
+(* the quoting rule is right for every text: no hypothesis *)
+Lemma quote_field_good v : field_good (csv_quote v) v.
 Proof.
-  intros H. destruct (csv_needs_quote v) eqn:Q.
+  unfold csv_quote. destruct (csv_needs_quote v) eqn:Q.
   - intros d rest Hd. cbn [app]. rewrite <- app_assoc. cbn [app].
     change (csv_go FS (34 :: csv_dq v ++ 34 :: d :: rest)) with (csv_go QD (csv_dq v ++ 34 :: d :: rest)).
     rewrite go_QD_dq. now rewrite go_delim by auto.
-  - apply plain_field_good. now apply known_cr_plain.
+  - apply plain_field_good. now apply plain_not_quoted.
 Qed.
 
-Lemma cell_field_good c : known_cr_cell c = false -> field_good (csv_field c) (csv_shown c).
+Lemma cell_field_good c : field_good (csv_field c) (csv_shown c).
 Proof.
-  destruct c as [|s|n|txt]; cbn [known_cr_cell csv_field csv_shown]; intros H.
+  destruct c as [|s|n|txt]; cbn [csv_field csv_shown].
   - now apply plain_field_good.
-  - now apply text_field_good.
-  - now apply text_field_good.
-  - now apply text_field_good.
+  - apply quote_field_good.
+  - apply quote_field_good.
+  - apply quote_field_good.
 Qed.
 
 Lemma fields_parse (es : list (list Z * list Z)) :
@@ -146,11 +142,11 @@ Proof.
 Qed.
 
 Lemma row_record r rest :
-  r <> [] -> forallb (fun c => negb (known_cr_cell c)) r = true ->
+  r <> [] ->
   csv_records (csv_line r ++ rest)
   = match csv_records rest with Some rs => Some (map csv_shown r :: rs) | None => None end.
 Proof.
-  intros Hne H. unfold csv_line.
+  intros Hne. unfold csv_line.
   pose (es := map (fun c => (csv_field c, csv_shown c)) r).
   assert (E1 : map csv_field r = map fst es) by (unfold es; rewrite map_map; reflexivity).
   assert (E2 : map csv_shown r = map snd es) by (unfold es; rewrite map_map; reflexivity).
@@ -158,39 +154,33 @@ Proof.
   - unfold es. destruct r; [congruence|discriminate].
   - unfold es. apply Forall_forall. intros p Hp. apply in_map_iff in Hp as [c [<- Hc]].
     cbn [fst snd]. apply cell_field_good.
-    rewrite forallb_forall in H. specialize (H c Hc). now destruct (known_cr_cell c).
 Qed.
 
 Lemma header_record cols rest :
-  cols <> [] -> forallb csv_plain cols = true ->
+  cols <> [] ->
   csv_records (csv_header cols ++ rest)
   = match csv_records rest with Some rs => Some (cols :: rs) | None => None end.
 Proof.
-  intros Hne H. unfold csv_header.
-  pose (es := map (fun h : list Z => (h, h)) cols).
-  assert (E1 : map fst es = cols) by (unfold es; rewrite map_map; cbn; now rewrite map_id).
+  intros Hne. unfold csv_header.
+  pose (es := map (fun h : list Z => (csv_quote h, h)) cols).
+  assert (E1 : map fst es = map csv_quote cols) by (unfold es; rewrite map_map; reflexivity).
   assert (E2 : map snd es = cols) by (unfold es; rewrite map_map; cbn; now rewrite map_id).
   assert (G : csv_records ((join [44] (map fst es) ++ [10]) ++ rest)
             = match csv_records rest with Some rs => Some (map snd es :: rs) | None => None end).
   { apply records_line.
     - unfold es. destruct cols; [congruence|discriminate].
     - unfold es. apply Forall_forall. intros p Hp. apply in_map_iff in Hp as [h [<- Hh]].
-      cbn [fst snd]. apply plain_field_good. rewrite forallb_forall in H. now apply H. }
+      cbn [fst snd]. apply quote_field_good. }
   now rewrite E1, E2 in G.
 Qed.
 
 Lemma rows_records rows :
   Forall (fun r => r <> []) rows ->
-  forallb (forallb (fun c => negb (known_cr_cell c))) rows = true ->
   csv_records (flat_map csv_line rows) = Some (map (map csv_shown) rows).
 Proof.
-  induction rows as [|r rows IH]; intros Hne H; [reflexivity|].
-  inversion Hne; subst. cbn [forallb] in H. apply andb_true_iff in H as [Hr Hrs].
-  cbn [flat_map map]. rewrite row_record by assumption. now rewrite IH.
+  induction rows as [|r rows IH]; intros Hne; [reflexivity|].
+  inversion Hne; subst. cbn [flat_map map]. rewrite row_record by assumption. now rewrite IH.
 Qed.
-
-Lemma negb_existsb {A} (f : A -> bool) l : negb (existsb f l) = forallb (fun x => negb (f x)) l.
-Proof. induction l as [|x l IH]; cbn; [reflexivity|]. now rewrite negb_orb, IH. Qed.
 
 Lemma wf_rows_nonempty t : table_wf t = true -> t_cols t <> [] /\ Forall (fun r => r <> []) (t_rows t).
 Proof.
@@ -201,18 +191,11 @@ Proof.
   destruct (t_cols t); [congruence|discriminate].
 Qed.
 
-(* THE CSV THEOREM *)
-Theorem csv_roundtrip t : csv_guard t = true -> csv_parse (csv_doc t) = Some (csv_displayed t).
+(* THE CSV THEOREM: every table with at least one column *)
+Theorem csv_roundtrip t : table_wf t = true -> csv_parse (csv_doc t) = Some (csv_displayed t).
 Proof.
-  unfold csv_guard. intros H. apply andb_true_iff in H as [H Hh]. apply andb_true_iff in H as [Hwf Hcr].
-  destruct (wf_rows_nonempty t Hwf) as [Hc Hr].
+  intros Hwf. destruct (wf_rows_nonempty t Hwf) as [Hc Hr].
   unfold csv_parse, csv_doc, csv_displayed.
-  unfold known_header in Hh. rewrite negb_existsb in Hh.
-  assert (Hh' : forallb csv_plain (t_cols t) = true).
-  { rewrite forallb_forall in *. intros h Hin. specialize (Hh h Hin). now destruct (csv_plain h). }
-  unfold known_cr in Hcr. rewrite negb_existsb in Hcr.
-  assert (Hcr' : forallb (forallb (fun c => negb (known_cr_cell c))) (t_rows t) = true).
-  { rewrite forallb_forall in *. intros r Hin. specialize (Hcr r Hin). now rewrite negb_existsb in Hcr. }
   rewrite header_record by assumption. now rewrite rows_records by assumption.
 Qed.
 
@@ -230,7 +213,7 @@ Proof.
   intros x y. apply (list_eqb_spec bytes_eqb). intros x' y'. apply (list_eqb_spec Z.eqb). intros; apply Z.eqb_eq.
 Qed.
 
-Theorem csv_model_meets_spec t : csv_guard t = true -> csv_spec_ok t (csv_doc t) = true.
+Theorem csv_model_meets_spec t : table_wf t = true -> csv_spec_ok t (csv_doc t) = true.
 Proof. intros H. unfold csv_spec_ok. rewrite csv_roundtrip by exact H. apply recs_eqb_refl. Qed.
 
 (* integers never need the guard: i64::to_string prints only an optional minus and digits *)
@@ -251,136 +234,117 @@ Proof.
   - apply Z.ltb_ge in E. apply dec_digits_plain; [lia|constructor].
 Qed.
 
-Lemma int_never_known_cr n : known_cr_cell (CInt n) = false.
+(* numbers are printed bare *)
+Lemma int_never_quoted n : csv_field (CInt n) = int_dec n.
 Proof.
-  cbn [known_cr_cell cell_text]. unfold known_cr_text.
-  assert (H : has 13 (int_dec n) = false).
-  { pose proof (int_dec_chars n) as HF. induction HF as [|b l Hb HF IH]; [reflexivity|].
-    rewrite has_cons, IH. destruct (b =? 13) eqn:E; [|reflexivity]. apply Z.eqb_eq in E. lia. }
+  cbn [csv_field cell_text]. unfold csv_quote.
+  assert (H : csv_needs_quote (int_dec n) = false).
+  { unfold csv_needs_quote. pose proof (int_dec_chars n) as HF.
+    induction HF as [|b l Hb HF IH]; [reflexivity|]. rewrite !has_cons.
+    assert (E1 : (b =? 44) = false) by (apply Z.eqb_neq; lia).
+    assert (E2 : (b =? 34) = false) by (apply Z.eqb_neq; lia).
+    assert (E3 : (b =? 10) = false) by (apply Z.eqb_neq; lia).
+    assert (E4 : (b =? 13) = false) by (apply Z.eqb_neq; lia).
+    rewrite E1, E2, E3, E4. exact IH. }
   now rewrite H.
 Qed.
 
 (* ------------------------------------------------------------------ *)
-(* refutations of the full property, with minimal witnesses            *)
+(* regression: the writer before fix efda2f4 fails, the repaired one does not, on the minimal
+   witnesses                                                           *)
 (* ------------------------------------------------------------------ *)
-(* a cell that is just CR: written unquoted, CR LF reads as the line break, the cell is lost *)
+(* a cell that is just CR: was written unquoted, CR LF read as the line break, the cell was lost *)
 Definition cr_witness : table := mkTable [[104]] [[CStr [13]]].
-Lemma cr_unquoted_refuted :
-  known_cr cr_witness = true /\ table_wf cr_witness = true /\ known_header cr_witness = false /\
-  csv_doc cr_witness = [104; 10; 13; 10] /\
-  csv_parse (csv_doc cr_witness) = Some [[[104]]; [[]]] /\
-  csv_parse (csv_doc cr_witness) <> Some (csv_displayed cr_witness).
+Lemma cr_unquoted_regression :
+  csv_doc_before_fix cr_witness = [104; 10; 13; 10] /\
+  csv_parse (csv_doc_before_fix cr_witness) = Some [[[104]]; [[]]] /\
+  csv_parse (csv_doc_before_fix cr_witness) <> Some (csv_displayed cr_witness) /\
+  csv_doc cr_witness = [104; 10; 34; 13; 34; 10] /\
+  csv_parse (csv_doc cr_witness) = Some (csv_displayed cr_witness).
 Proof. vm_compute. repeat split; discriminate. Qed.
 
-(* a CR in the middle of a cell: the document is not RFC 4180 at all *)
+(* a CR in the middle of a cell: the document was not RFC 4180 at all *)
 Definition cr_mid_witness : table := mkTable [[104]] [[CStr [97; 13; 98]]].
-Lemma cr_mid_refuted :
-  known_cr cr_mid_witness = true /\ csv_parse (csv_doc cr_mid_witness) = None.
+Lemma cr_mid_regression :
+  csv_parse (csv_doc_before_fix cr_mid_witness) = None /\
+  csv_parse (csv_doc cr_mid_witness) = Some (csv_displayed cr_mid_witness).
 Proof. vm_compute. split; reflexivity. Qed.
 
-(* a column name with a comma: one column reads back as two *)
+(* a column name with a comma: one column read back as two *)
 Definition header_witness : table := mkTable [[97; 44; 98]] [].
-Lemma header_unquoted_refuted :
-  known_header header_witness = true /\ table_wf header_witness = true /\ known_cr header_witness = false /\
-  csv_parse (csv_doc header_witness) = Some [[[97]; [98]]] /\
-  csv_parse (csv_doc header_witness) <> Some (csv_displayed header_witness).
+Lemma header_unquoted_regression :
+  csv_parse (csv_doc_before_fix header_witness) = Some [[[97]; [98]]] /\
+  csv_parse (csv_doc_before_fix header_witness) <> Some (csv_displayed header_witness) /\
+  csv_parse (csv_doc header_witness) = Some (csv_displayed header_witness).
 Proof. vm_compute. repeat split; discriminate. Qed.
 
-(* a column name with a quote: not RFC 4180 *)
+(* a column name with a quote: was not RFC 4180 *)
 Definition header_quote_witness : table := mkTable [[97; 34]] [].
-Lemma header_quote_refuted :
-  known_header header_quote_witness = true /\ csv_parse (csv_doc header_quote_witness) = None.
+Lemma header_quote_regression :
+  csv_parse (csv_doc_before_fix header_quote_witness) = None /\
+  csv_parse (csv_doc header_quote_witness) = Some (csv_displayed header_quote_witness).
 Proof. vm_compute. split; reflexivity. Qed.
-
-(* the class known_cr is exact at the level of one cell: every unquoted text with a CR is lost *)
-Lemma go_CR_in_text s v rest : s = FS \/ s = UQ ->
-  has 13 v = true -> csv_needs_quote v = false ->
-  csv_go s (v ++ 10 :: rest) = None \/
-  exists p q, v = p ++ 13 :: q /\ csv_go s (v ++ 10 :: rest) = c_pushl p (c_after 10 rest).
-Proof.
-  revert s. induction v as [|b v IH]; intros s Hs H13 Hq; [discriminate|].
-  unfold csv_needs_quote in Hq. rewrite !has_cons in Hq. rewrite has_cons in H13.
-  destruct (b =? 44) eqn:E44; [cbn [orb] in Hq; discriminate|].
-  destruct (b =? 34) eqn:E34; [cbn [orb] in Hq; rewrite ?orb_true_r in Hq; discriminate|].
-  destruct (b =? 10) eqn:E10; [cbn [orb] in Hq; rewrite ?orb_true_r in Hq; discriminate|].
-  cbn [orb] in Hq.
-  destruct (b =? 13) eqn:E13.
-  - apply Z.eqb_eq in E13. subst b.
-    destruct v as [|b2 v].
-    + right. exists [], []. split; [reflexivity|].
-      destruct Hs as [-> | ->]; cbn; destruct (c_endrec _) as [[[f fs] rs]|]; reflexivity.
-    + destruct (b2 =? 10) eqn:F10.
-      * exfalso. rewrite !has_cons, F10 in Hq. rewrite !orb_true_r in Hq. discriminate.
-      * left. destruct Hs as [-> | ->]; cbn [app csv_go]; cbn [Z.eqb Pos.eqb]; now rewrite F10.
-  - cbn [orb] in H13.
-    assert (Hstep : csv_go s ((b :: v) ++ 10 :: rest) = c_push b (csv_go UQ (v ++ 10 :: rest))).
-    { destruct Hs as [-> | ->]; cbn [app csv_go]; now rewrite E44, E10, E13, E34. }
-    rewrite Hstep.
-    destruct (IH UQ (or_intror eq_refl) H13) as [HN | [p [q [Ev Hg]]]].
-    + unfold csv_needs_quote. exact Hq.
-    + left. now rewrite HN.
-    + right. exists (b :: p), q. split; [now rewrite Ev|]. rewrite Hg. now rewrite c_pushl_cons.
-Qed.
-
-Theorem cr_cell_never_roundtrips h v :
-  csv_plain h = true -> known_cr_text v = true ->
-  csv_parse (csv_doc (mkTable [h] [[CStr v]])) <> Some (csv_displayed (mkTable [h] [[CStr v]])).
-Proof.
-  intros Hh Hk. unfold known_cr_text in Hk. apply andb_true_iff in Hk as [H13 Hq].
-  apply negb_true_iff in Hq.
-  unfold csv_parse, csv_doc, csv_displayed. cbn [t_cols t_rows flat_map map csv_shown cell_text].
-  rewrite header_record; [|congruence|cbn; now rewrite Hh].
-  rewrite app_nil_r. unfold csv_line. cbn [map join csv_field cell_text]. rewrite Hq.
-  assert (E : csv_records (v ++ [10]) = c_fin (csv_go FS (v ++ [10]))) by (destruct v; reflexivity).
-  rewrite E.
-  destruct (go_CR_in_text FS v [] (or_introl eq_refl) H13 Hq) as [HN | [p [q [Ev Hg]]]].
-  - rewrite HN. cbn. discriminate.
-  - rewrite Hg. cbn. rewrite app_nil_r. intros HH. inversion HH as [HE].
-    apply (f_equal (@length Z)) in HE. rewrite Ev, app_length in HE. cbn in HE. lia.
-Qed.
 
 (* ------------------------------------------------------------------ *)
 (* JSON strings                                                        *)
 (* ------------------------------------------------------------------ *)
-Lemma json_escape_cons b s :
-  json_escape (b :: s)
-  = (if b =? 92 then [92; 92] else if b =? 34 then [92; 34] else [b]) ++ json_escape s.
+Definition nonneg (s : list Z) : bool := forallb (fun b => 0 <=? b) s.
+
+Lemma bytes_ok_nonneg s : bytes_ok s = true -> nonneg s = true.
 Proof.
-  unfold json_escape, replace1. cbn [flat_map]. rewrite flat_map_app.
-  destruct (b =? 92) eqn:E; [reflexivity|]. cbn [flat_map]. now rewrite app_nil_r.
+  unfold bytes_ok, nonneg. induction s as [|b s IH]; cbn [forallb]; [reflexivity|].
+  intros H. apply andb_true_iff in H as [Hb Hs]. apply andb_true_iff in Hb as [Hb _]. now rewrite Hb, IH.
 Qed.
 
-Lemma json_guard_known s : json_guard_str s = negb (known_json_control_str s).
+(* one escaped byte reads back as that byte: every arm of the match in json_escape *)
+Lemma lex_esc_byte b l : 0 <= b ->
+  json_lex_string (json_esc_byte b ++ l) = j_push [b] (json_lex_string l).
 Proof.
-  unfold json_guard_str, known_json_control_str. rewrite negb_existsb.
-  induction s as [|b s IH]; [reflexivity|]. cbn [forallb]. now rewrite IH, Z.leb_antisym.
+  intros Hb. destruct (b <? 32) eqn:Hlt.
+  - apply Z.ltb_lt in Hlt.
+    assert (Hk : exists k : nat, b = Z.of_nat k /\ (k < 32)%nat) by (exists (Z.to_nat b); lia).
+    destruct Hk as [k [-> Hk]].
+    do 32 (destruct k as [|k]; [reflexivity|]). lia.
+  - apply Z.ltb_ge in Hlt. unfold json_esc_byte.
+    destruct (b =? 34) eqn:E34; [apply Z.eqb_eq in E34; subst b; reflexivity|].
+    destruct (b =? 92) eqn:E92; [apply Z.eqb_eq in E92; subst b; reflexivity|].
+    assert (N : (b =? 10) = false /\ (b =? 13) = false /\ (b =? 9) = false /\ (b =? 8) = false /\ (b =? 12) = false).
+    { repeat split; apply Z.eqb_neq; lia. }
+    destruct N as [N1 [N2 [N3 [N4 N5]]]]. rewrite N1, N2, N3, N4, N5.
+    assert (Hl : (b <? 32) = false) by (apply Z.ltb_ge; lia). rewrite Hl.
+    cbn [app json_lex_string]. now rewrite E34, E92, Hl.
 Qed.
 
-Lemma lex_escape s rest : json_guard_str s = true ->
+Lemma lex_escape s rest : nonneg s = true ->
   json_lex_string (json_escape s ++ 34 :: rest) = Some (s, rest).
 Proof.
   induction s as [|b s IH]; intros H; [reflexivity|].
-  cbn [json_guard_str forallb] in H. apply andb_true_iff in H as [Hb Hs]. apply Z.leb_le in Hb.
-  rewrite json_escape_cons. specialize (IH Hs).
-  destruct (b =? 92) eqn:E92; [|destruct (b =? 34) eqn:E34].
-  - apply Z.eqb_eq in E92. subst b. cbn [app]. cbn [json_lex_string]. cbn [Z.eqb Pos.eqb]. now rewrite IH.
-  - apply Z.eqb_eq in E34. subst b. cbn [app]. cbn [json_lex_string]. cbn [Z.eqb Pos.eqb]. now rewrite IH.
-  - cbn [app]. cbn [json_lex_string]. rewrite E34, E92.
-    assert (Hlt : (b <? 32) = false) by (apply Z.ltb_ge; lia). rewrite Hlt, IH. reflexivity.
+  cbn [nonneg forallb] in H. apply andb_true_iff in H as [Hb Hs]. apply Z.leb_le in Hb.
+  unfold json_escape in *. cbn [flat_map]. rewrite <- app_assoc, lex_esc_byte by exact Hb.
+  now rewrite (IH Hs).
 Qed.
 
-(* THE JSON STRING THEOREM *)
-Theorem json_roundtrip s : json_guard_str s = true -> json_unescape (json_string s) = Some s.
+(* THE JSON STRING THEOREM: every byte string *)
+Theorem json_roundtrip s : nonneg s = true -> json_unescape (json_string s) = Some s.
 Proof.
   intros H. unfold json_unescape, json_string. cbn [Z.eqb Pos.eqb]. now rewrite lex_escape.
 Qed.
 
-(* and the guard is necessary: every string with a control character yields invalid JSON *)
-Lemma lex_control s rest : known_json_control_str s = true ->
-  json_lex_string (json_escape s ++ rest) = None.
+(* regression: the escaper before fix 8d4c59c produced invalid JSON for EVERY string with a
+   control character *)
+Lemma json_escape_before_fix_cons b s :
+  json_escape_before_fix (b :: s)
+  = (if b =? 92 then [92; 92] else if b =? 34 then [92; 34] else [b]) ++ json_escape_before_fix s.
+Proof.
+  unfold json_escape_before_fix, replace1. cbn [flat_map]. rewrite flat_map_app.
+  destruct (b =? 92) eqn:E; [reflexivity|]. cbn [flat_map]. now rewrite app_nil_r.
+Qed.
+
+Lemma lex_control_before_fix s rest : existsb (fun b => b <? 32) s = true ->
+  json_lex_string (json_escape_before_fix s ++ rest) = None.
 Proof.
   induction s as [|b s IH]; intros H; [discriminate|].
-  cbn [known_json_control_str existsb] in H. rewrite json_escape_cons.
+  cbn [existsb] in H. rewrite json_escape_before_fix_cons.
   destruct (b <? 32) eqn:Hlt.
   - apply Z.ltb_lt in Hlt.
     assert (E92 : (b =? 92) = false) by (apply Z.eqb_neq; lia).
@@ -394,62 +358,53 @@ Proof.
     + cbn [app]. cbn [json_lex_string]. rewrite E34, E92, Hlt, IH. reflexivity.
 Qed.
 
-Theorem json_control_never_roundtrips s :
-  known_json_control_str s = true -> json_unescape (json_string s) = None.
+Theorem json_control_regression s :
+  existsb (fun b => b <? 32) s = true -> json_unescape (json_string_before_fix s) = None.
 Proof.
-  intros H. unfold json_unescape, json_string. cbn [Z.eqb Pos.eqb]. now rewrite lex_control.
-Qed.
-
-Theorem json_roundtrip_iff s : json_unescape (json_string s) = Some s <-> known_json_control_str s = false.
-Proof.
-  split; intros H.
-  - destruct (known_json_control_str s) eqn:K; [|reflexivity].
-    rewrite json_control_never_roundtrips in H by exact K. discriminate.
-  - apply json_roundtrip. rewrite json_guard_known, H. reflexivity.
+  intros H. unfold json_unescape, json_string_before_fix. cbn [Z.eqb Pos.eqb]. now rewrite lex_control_before_fix.
 Qed.
 
 (* minimal witnesses *)
-Lemma control_char_refuted :
-  known_json_control_str [10] = true /\ json_string [10] = [34; 10; 34] /\ json_unescape (json_string [10]) = None.
+Lemma control_char_regression :
+  json_string_before_fix [10] = [34; 10; 34] /\ json_unescape (json_string_before_fix [10]) = None /\
+  json_string [10] = [34; 92; 110; 34] /\ json_unescape (json_string [10]) = Some [10] /\
+  json_string [1] = [34; 92; 117; 48; 48; 48; 49; 34] /\ json_string [31] = [34; 92; 117; 48; 48; 49; 102; 34].
 Proof. vm_compute. repeat split. Qed.
 
 Definition json_control_witness : table := mkTable [[104]] [[CStr [9]]].
-Lemma json_doc_control_refuted :
-  known_json_control json_control_witness = true /\ json_parse_doc (json_doc json_control_witness) = None.
+Lemma json_doc_control_regression :
+  json_parse_doc (json_doc_before_fix json_control_witness) = None /\
+  json_parse_doc (json_doc json_control_witness) = Some (json_expected json_control_witness).
 Proof. vm_compute. split; reflexivity. Qed.
 
 Definition json_header_witness : table := mkTable [[97; 34]] [[CInt 1]].
-Lemma json_header_refuted :
-  known_json_header json_header_witness = true /\ table_wf json_header_witness = true /\
-  json_parse_doc (json_doc json_header_witness) = None.
-Proof. vm_compute. repeat split. Qed.
+Lemma json_header_regression :
+  json_parse_doc (json_doc_before_fix json_header_witness) = None /\
+  json_parse_doc (json_doc json_header_witness) = Some (json_expected json_header_witness).
+Proof. vm_compute. split; reflexivity. Qed.
 
-(* a backslash in a name silently changes the name: a\n reads back as a, LF *)
+(* a backslash in a name silently changed the name: a\n read back as a, LF *)
 Definition json_header_bs_witness : table := mkTable [[97; 92; 110]] [[CInt 1]].
-Lemma json_header_backslash_refuted :
-  known_json_header json_header_bs_witness = true /\
-  json_parse_doc (json_doc json_header_bs_witness) = Some [[([97; 10], JNum [49])]].
+Lemma json_header_backslash_regression :
+  json_parse_doc (json_doc_before_fix json_header_bs_witness) = Some [[([97; 10], JNum [49])]] /\
+  json_parse_doc (json_doc json_header_bs_witness) = Some [[([97; 92; 110], JNum [49])]].
 Proof. vm_compute. split; reflexivity. Qed.
 
 Definition json_nan_witness : table := mkTable [[104]] [[CFloat [78; 97; 78]]].
-Lemma json_nonfinite_refuted :
-  known_json_nonfinite json_nan_witness = true /\ json_doc json_nan_witness = [91; 10; 32; 32; 123; 34; 104; 34; 58; 32; 78; 97; 78; 125; 10; 93; 10] /\
-  json_parse_doc (json_doc json_nan_witness) = None.
+Lemma json_nonfinite_regression :
+  json_doc_before_fix json_nan_witness = [91; 10; 32; 32; 123; 34; 104; 34; 58; 32; 78; 97; 78; 125; 10; 93; 10] /\
+  json_parse_doc (json_doc_before_fix json_nan_witness) = None /\
+  json_parse_doc (json_doc json_nan_witness) = Some [[([104], JNull)]].
 Proof. vm_compute. repeat split. Qed.
 
-(* satisfiable hypotheses: a non-trivial table inside both guards *)
+(* satisfiable hypotheses: a non-trivial table *)
 Definition ex_table : table :=
-  mkTable [[105; 100]; [110; 97; 109; 101]]
-          [[CInt (-7); CStr [97; 44; 34; 98; 10; 99]]; [CNull; CStr [195; 169; 32]]; [CInt 0; CStr [13; 10]]].
-Example ex_guards : csv_guard ex_table = true /\ csv_spec_ok ex_table (csv_doc ex_table) = true.
+  mkTable [[105; 100]; [110; 44; 34; 13]]
+          [[CInt (-7); CStr [97; 44; 34; 98; 10; 99]]; [CNull; CStr [195; 169; 32; 13]]; [CInt 0; CStr [13; 10; 9; 0; 31]];
+           [CInt 1; CFloat [45; 105; 110; 102]]; [CInt 2; CFloat [49; 46; 53]]].
+Example ex_guards : table_wf ex_table = true /\ table_typed ex_table = true /\
+  csv_spec_ok ex_table (csv_doc ex_table) = true /\ json_spec_ok ex_table (json_doc ex_table) = true.
 Proof. vm_compute. repeat split. Qed.
-Definition ex_table_json : table :=
-  mkTable [[105; 100]; [110; 97; 109; 101]]
-          [[CInt (-7); CStr [97; 44; 34; 98; 92; 99]]; [CNull; CStr [195; 169; 32]]; [CInt 0; CStr []]].
-Example ex_guards_json : json_guard ex_table_json = true /\ json_spec_ok ex_table_json (json_doc ex_table_json) = true.
-Proof. vm_compute. repeat split. Qed.
-Example ex_json_str : json_guard_str [97; 34; 92; 200; 127] = true.
-Proof. reflexivity. Qed.
 
 (* ------------------------------------------------------------------ *)
 (* JSON numbers                                                        *)
@@ -608,9 +563,10 @@ Proof.
   - cbn [lex_sign]. cbn [Z.eqb Pos.eqb]. rewrite S. cbn [int_part_ok]. rewrite E48. cbn. now rewrite !app_nil_r.
 Qed.
 
-Lemma int_dec_number_ok n : cell_typed (CInt n) = true -> json_number_ok (int_dec n) = true.
+Lemma int_dec_number_ok n :
+  (-9223372036854775808 <=? n) && (n <=? 9223372036854775807) = true -> json_number_ok (int_dec n) = true.
 Proof.
-  cbn [cell_typed]. intros H. apply andb_true_iff in H as [H1 H2]. apply Z.leb_le in H1, H2.
+  intros H. apply andb_true_iff in H as [H1 H2]. apply Z.leb_le in H1, H2.
   assert (P : 10 ^ Z.of_nat 20 = 100000000000000000000) by (vm_compute; reflexivity).
   unfold json_number_ok, int_dec. destruct (n <? 0) eqn:E.
   - apply Z.ltb_lt in E. destruct (dec_digits_shape 20 (- n) []) as [b [ds [E1 [Hb Hds]]]]; [rewrite P; lia|].
@@ -623,22 +579,12 @@ Qed.
 (* ------------------------------------------------------------------ *)
 (* JSON documents                                                      *)
 (* ------------------------------------------------------------------ *)
-Lemma lex_name h rest : json_name_ok h = true -> json_lex_string (h ++ 34 :: rest) = Some (h, rest).
-Proof.
-  induction h as [|b h IH]; intros H; [reflexivity|].
-  cbn [json_name_ok forallb] in H. apply andb_true_iff in H as [Hb Hh].
-  apply andb_true_iff in Hb as [Hb H92]. apply andb_true_iff in Hb as [H32 H34].
-  apply negb_true_iff in H92, H34. apply Z.leb_le in H32.
-  assert (Hlt : (b <? 32) = false) by (apply Z.ltb_ge; lia).
-  cbn [app json_lex_string]. rewrite H34, H92, Hlt, (IH Hh). reflexivity.
-Qed.
-
 Definition value_ok (c : cell) : bool :=
   match c with
   | CNull => true
-  | CStr s => json_guard_str s
+  | CStr s => nonneg s
   | CInt n => json_number_ok (int_dec n)
-  | CFloat txt => json_number_ok txt
+  | CFloat txt => float_nonfinite txt || json_number_ok txt
   end.
 
 Lemma number_value txt d rest : json_number_ok txt = true -> d = 44 \/ d = 125 ->
@@ -669,7 +615,7 @@ Proof.
   - unfold json_string. cbn [app]. rewrite <- app_assoc. cbn [app]. split; [|reflexivity].
     cbn [j_value]. cbn [Z.eqb Pos.eqb]. now rewrite lex_escape.
   - now apply number_value.
-  - now apply number_value.
+  - destruct (float_nonfinite txt); [split; reflexivity|]. cbn [orb] in H. now apply number_value.
 Qed.
 
 Lemma sk32 l : skip_ws (32 :: l) = skip_ws l. Proof. reflexivity. Qed.
@@ -682,10 +628,10 @@ Lemma sk123 l : skip_ws (123 :: l) = 123 :: l. Proof. reflexivity. Qed.
 Lemma sk93 l : skip_ws (93 :: l) = 93 :: l. Proof. reflexivity. Qed.
 Lemma sk91 l : skip_ws (91 :: l) = 91 :: l. Proof. reflexivity. Qed.
 
-Definition member_ok (hc : list Z * cell) : bool := json_name_ok (fst hc) && value_ok (snd hc).
+Definition member_ok (hc : list Z * cell) : bool := nonneg (fst hc) && value_ok (snd hc).
 Definition jmember_of (hc : list Z * cell) : list Z * jval := (fst hc, jval_of (snd hc)).
 
-Lemma member_step f h c d X : json_name_ok h = true -> value_ok c = true -> d = 44 \/ d = 125 ->
+Lemma member_step f h c d X : nonneg h = true -> value_ok c = true -> d = 44 \/ d = 125 ->
   j_members (S f) (json_member (h, c) ++ d :: X)
   = if d =? 44 then match j_members f (skip_ws X) with
                     | Some (ms, rest) => Some ((h, jval_of c) :: ms, rest)
@@ -694,11 +640,11 @@ Lemma member_step f h c d X : json_name_ok h = true -> value_ok c = true -> d = 
     else Some ([(h, jval_of c)], X).
 Proof.
   intros Hh Hc Hd. unfold json_member. cbn [fst snd].
-  replace ((34 :: h ++ [34; 58; 32] ++ json_value c) ++ d :: X)
-    with (34 :: h ++ 34 :: 58 :: 32 :: (json_value c ++ d :: X))
+  replace ((34 :: json_escape h ++ [34; 58; 32] ++ json_value c) ++ d :: X)
+    with (34 :: json_escape h ++ 34 :: 58 :: 32 :: (json_value c ++ d :: X))
     by (cbn [app]; rewrite <- !app_assoc; reflexivity).
   destruct (value_parse c d X Hc Hd) as [V W].
-  cbn [j_members]. cbn [Z.eqb Pos.eqb]. rewrite (lex_name h _ Hh).
+  cbn [j_members]. cbn [Z.eqb Pos.eqb]. rewrite (lex_escape h _ Hh).
   rewrite sk58. cbn [Z.eqb Pos.eqb]. rewrite sk32, W, V.
   destruct Hd as [->| ->]; rewrite ?sk44, ?sk125; reflexivity.
 Qed.
@@ -710,7 +656,7 @@ Lemma members_start ms X : ms <> [] ->
   exists y, join [44; 32] (map json_member ms) ++ X = 34 :: y.
 Proof.
   destruct ms as [|m ms]; [congruence|]. intros _. cbn [map]. unfold json_member at 1.
-  destruct (join_head [44; 32] 34 (fst m ++ [34; 58; 32] ++ json_value (snd m)) (map json_member ms)) as [y Ey].
+  destruct (join_head [44; 32] 34 (json_escape (fst m) ++ [34; 58; 32] ++ json_value (snd m)) (map json_member ms)) as [y Ey].
   rewrite Ey. cbn [app]. eauto.
 Qed.
 
@@ -830,34 +776,23 @@ Proof.
   unfold json_expected. cbn [t_cols t_rows]. f_equal. apply map_ext. intros a. apply combine_jmember.
 Qed.
 
-(* every row of a table inside the guard is well-formed for the parser *)
-Lemma existsb_false_in {A} (f : A -> bool) l x : existsb f l = false -> In x l -> f x = false.
-Proof.
-  intros H Hin. destruct (f x) eqn:E; [|reflexivity].
-  assert (existsb f l = true) by (apply existsb_exists; eauto). congruence.
-Qed.
-
+(* every row of a well-formed, typed table is well-formed for the parser *)
 Lemma guard_rows_ok t : json_guard t = true -> forallb (row_ok (t_cols t)) (t_rows t) = true.
 Proof.
-  unfold json_guard. intros H.
-  apply andb_true_iff in H as [H Hnf]. apply andb_true_iff in H as [H Hhd].
-  apply andb_true_iff in H as [H Hct]. apply andb_true_iff in H as [Hwf Hty].
-  apply negb_true_iff in Hnf, Hhd, Hct.
+  unfold json_guard. intros H. apply andb_true_iff in H as [Hwf Hty].
+  unfold table_typed in Hty. apply andb_true_iff in Hty as [Hcols Hcells].
   pose proof Hwf as Hwf'. unfold table_wf in Hwf'. apply andb_true_iff in Hwf' as [Hc Hlen].
   apply forallb_forall. intros r Hr. unfold row_ok. apply andb_true_iff. split.
   - apply forallb_forall. intros [h c] Hin. unfold member_ok. cbn [fst snd]. apply andb_true_iff. split.
-    + apply in_combine_l in Hin. unfold known_json_header in Hhd.
-      pose proof (existsb_false_in _ _ h Hhd Hin) as X. now apply negb_false_iff in X.
+    + apply in_combine_l in Hin. rewrite forallb_forall in Hcols. now apply bytes_ok_nonneg, Hcols.
     + apply in_combine_r in Hin.
-      pose proof (existsb_false_in _ _ r Hct Hr) as X1. pose proof (existsb_false_in _ _ c X1 Hin) as Y1.
-      pose proof (existsb_false_in _ _ r Hnf Hr) as X2. pose proof (existsb_false_in _ _ c X2 Hin) as Y2.
-      unfold table_typed in Hty. rewrite forallb_forall in Hty. specialize (Hty r Hr).
-      rewrite forallb_forall in Hty. specialize (Hty c Hin).
-      destruct c as [|s|n|txt]; cbn [value_ok known_json_control_cell known_json_nonfinite_cell] in *.
+      rewrite forallb_forall in Hcells. specialize (Hcells r Hr).
+      rewrite forallb_forall in Hcells. specialize (Hcells c Hin).
+      destruct c as [|s|n|txt]; cbn [value_ok cell_typed] in *.
       * reflexivity.
-      * rewrite json_guard_known, Y1. reflexivity.
+      * now apply bytes_ok_nonneg.
       * now apply int_dec_number_ok.
-      * now apply negb_false_iff in Y2.
+      * exact Hcells.
   - rewrite forallb_forall in Hlen. specialize (Hlen r Hr). apply Nat.eqb_eq in Hlen.
     destruct (t_cols t) as [|h cols]; [discriminate|]. destruct r as [|c r]; [discriminate|]. reflexivity.
 Qed.
